@@ -126,7 +126,19 @@ pub fn gen_case(r: &mut Rng) -> DetCase {
     }
     rows.sort_by_key(|x| x.settle_jd);
     let cut = first_day + ((last_day - first_day) as i64 * r.range(30, 110) / 100) as i32;
-    DetCase { csv: csv_text(&rows), summary_date: date_str(date_from_jd(cut)) }
+    // a recognised column given twice (a second memo column with other text): whichever cell the
+    // reader prefers, it is the same one in every run
+    let mut csv = csv_text(&rows);
+    if r.chance(50) {
+        csv = csv
+            .lines()
+            .enumerate()
+            .map(|(i, l)| if i == 0 { format!("{},memo,Memo", l) } else { format!("{},first note {},second note {}", l, i, i) })
+            .collect::<Vec<_>>()
+            .join("\n")
+            + "\n";
+    }
+    DetCase { csv, summary_date: date_str(date_from_jd(cut)) }
 }
 
 fn scratch_root() -> PathBuf {
